@@ -1,0 +1,19 @@
+//go:build verif
+// +build verif
+
+package process
+
+// Machine-checked contracts for gvc (see /verif/DESIGN.md). Comment-only file:
+// no executable code, excluded from every normal build.
+
+//@ contract (*Client).Close
+//@   props C16
+//@   requires c != nil && c.running != nil && c.cmd != nil
+//@   let running = abool(c.running)
+//@   let w0 = waitCalls(c.cmd)
+//@   let o0 = closeCalls(c.stdout)
+//@   let i0 = closeCalls(c.stdin)
+//@   ensures(reaped) running ==> waitCalls(c.cmd) == w0 + 1
+//@   ensures(pipes) running && ref(c.stdin) != ref(c.stdout) ==> closeCalls(c.stdout) == o0 + 1 && closeCalls(c.stdin) == i0 + 1
+//@   ensures(once) !running ==> waitCalls(c.cmd) == w0 && closeCalls(c.stdout) == o0 && closeCalls(c.stdin) == i0 && result == nil
+//@   ensures(stopped) !abool(c.running)
